@@ -100,6 +100,15 @@ def unguarded_path(e, g, site, alternatives, start=None):
                     if path_of(t, n.frame) in paths:
                         return False
             return True
+        if n.kind == 'call_return' and n.extra.get('ret_class') and \
+                not isinstance(label, tuple):
+            from ..facts import canon as _canon
+            try:
+                atom = (n.extra['ret_class'] == 'T', _canon(n.ast, n.frame))
+            except Exception:
+                atom = None
+            if atom in alts:
+                return True
         if n.kind == 'test' and label in ('T', 'F'):
             for atom in atoms_of_test(n.ast, label == 'T', n.frame):
                 if atom in alts:
